@@ -387,3 +387,17 @@ def to_sseq(ctx, value, elem):
         cur = SSeq(z3.Concat(cur.term, z3.Unit(r)) if cur.struct[0] != "empty" else z3.Unit(r),
                    elem, ("snoc", cur, x))
     return cur
+
+
+VSEQ = z3.SeqSort(BSEQ)
+
+
+class SVSeq(Sym):
+    """a list of bytes VALUES of symbolic length: Seq(Seq(Int)); membership is by value"""
+    __slots__ = ("term",)
+
+    def __init__(self, term):
+        self.term = term
+
+    def __repr__(self):
+        return "SVSeq(%s)" % (self.term,)
